@@ -65,8 +65,15 @@ Theorem c20_no_leak : forall m sds ls ops,
 Proof. exact no_leak_run. Qed.
 Print Assumptions c20_no_leak.
 
-(* --- history: the cache after ANY sequence of events is what the from-scratch specification
-       computes from the latest applied, parseable text of each section --- *)
+(* --- delivery: Reconcile stores the computed spec in the NodeSLO whenever it differs from the
+       stored one, so what is delivered is exactly what was computed --- *)
+Theorem c20_delivery_identity : forall stored c, deliver_node stored c = c.
+Proof. exact deliver_node_id. Qed.
+Print Assumptions c20_delivery_identity.
+
+(* --- history: the spec DELIVERED to every node (NodeSLO.Spec) after ANY sequence of events, each
+       followed by the reconciliation of the nodes, is what the from-scratch specification computes
+       from the latest applied, parseable text of each section --- *)
 Theorem c20_history_refines_spec : forall m i, run m i = spec_run m i.
 Proof. exact run_refines_spec. Qed.
 Print Assumptions c20_history_refines_spec.
